@@ -579,3 +579,97 @@ package pokertable
 //@   ensures stats-inv: StatsInv(te)
 //@   ensures stats-others: err == nil ==> forall(k, 0, 10, gidx(te, playerID, k) ==> statsSameExcept(te, PS(te)[GPI(te)[k]]))
 //@   ensures counts: err == nil ==> forall(k, 0, 10, gidx(te, playerID, k) ==> PS(te)[GPI(te)[k]].GameStatistics == old(PS(te)[GPI(te)[k]].GameStatistics))
+
+// ---- table <-> seat manager bookkeeping (C03, C05) -----------------------------------------------
+
+//@ spec SeatMap(te) = te.table.State.SeatMap
+//@ spec TableWF(te) = EngShape(te) && len(SeatMap(te)) == MaxSeats(te)
+//@     && forall(i, 0, 10, i < len(PS(te)) ==> 0 <= PS(te)[i].Seat && PS(te)[i].Seat < MaxSeats(te) && SeatMap(te)[PS(te)[i].Seat] == i)
+//@     && forall(s, 0, 10, s < MaxSeats(te) ==> SeatMap(te)[s] == -1 || (0 <= SeatMap(te)[s] && SeatMap(te)[s] < len(PS(te)) && PS(te)[SeatMap(te)[s]].Seat == s))
+//@     && forall(i, 0, 10, forall(j, 0, 10, i < j && j < len(PS(te)) ==> PS(te)[i].PlayerID != PS(te)[j].PlayerID))
+// the seat map, the player list and the seat manager name the same occupant for every seat, with the same seated-in flag
+//@ spec Coupled(te) = ref(te.sm) != 0 && typeis(te.sm, "*seat_manager.seatManager") && SmWF(te.sm) && te.sm.MaxSeat == MaxSeats(te) && !held(te.sm.mu)
+//@     && forall(s, 0, 10, s < MaxSeats(te) ==> (SeatMap(te)[s] == -1 <==> !occ(te.sm, s))
+//@           && (SeatMap(te)[s] != -1 ==> te.sm.SeatData[s].ID == PS(te)[SeatMap(te)[s]].PlayerID && te.sm.SeatData[s].IsIn == PS(te)[SeatMap(te)[s]].IsIn))
+//@ spec knows(te, id) = exists(i, 0, 10, i < len(PS(te)) && PS(te)[i].PlayerID == id)
+//@ spec seatsSame(te) = len(SeatMap(te)) == old(len(SeatMap(te))) && forall(s, 0, 10, s < MaxSeats(te) ==> SeatMap(te)[s] == old(SeatMap(te)[s]))
+//@ spec playersSame(te) = len(PS(te)) == old(len(PS(te))) && forall(i, 0, 10, i < len(PS(te)) ==> PS(te)[i] == old(PS(te)[i]) && PS(te)[i].IsIn == old(PS(te)[i].IsIn)
+//@       && PS(te)[i].Bankroll == old(PS(te)[i].Bankroll) && PS(te)[i].Seat == old(PS(te)[i].Seat))
+//@ spec smSame(te) = forall(s, 0, 10, s < MaxSeats(te) ==> te.sm.SeatData[s] == old(te.sm.SeatData[s])
+//@       && (occ(te.sm, s) ==> te.sm.SeatData[s].IsIn == old(te.sm.SeatData[s].IsIn) && te.sm.SeatData[s].HasChips == old(te.sm.SeatData[s].HasChips)))
+
+//@ func (*tableEngine).emitEvent
+//@   inline
+
+//@ func (*tableEngine).PlayerJoin
+//@   property C03 C05
+//@   returns err
+//@   config M 2..10 : te.table.Meta.TableMaxSeatCount = M, te.sm.MaxSeat = M, len(te.sm.SeatData) = M
+//@   requires TableWF(te) && Coupled(te) && te.rg != nil
+//@   modifies forall(i, 0, 10, PS(te)[i].IsIn), forall(s, 0, M, te.sm.SeatData[s].IsIn), te.table.UpdateAt, te.table.UpdateSerial, log
+//@   ensures inv: TableWF(te) && Coupled(te)
+//@   ensures unknown-refused: !knows(te, playerID) ==> err == ErrTablePlayerNotFound && playersSame(te) && smSame(te)
+//@   ensures seated-in-both: err == nil ==> forall(i, 0, 10, i < len(PS(te)) ==> (PS(te)[i].IsIn <==> old(PS(te)[i].IsIn) || PS(te)[i].PlayerID == playerID))
+//@   ensures known-accepted: knows(te, playerID) ==> err == nil
+
+//@ func NewDefaultSeatMap
+//@   inline
+//@   loop 0 unroll 10
+
+//@ spec leavingID(ids, id) = exists(i, 0, 10, i < len(ids) && ids[i] == id)
+
+//@ func (*tableEngine).calcLeavePlayers
+//@   property C01 C03
+//@   returns newPS, newSeatMap, newGPI
+//@   requires 2 <= tableMaxSeatCount && tableMaxSeatCount <= 10
+//@   requires te != nil && te.table != nil && St(te) != nil && 0 <= len(leavePlayerIDs) && len(leavePlayerIDs) <= 10 && 0 <= len(currentPlayers) && len(currentPlayers) <= tableMaxSeatCount
+//@   requires forall(i, 0, 10, i < len(currentPlayers) ==> currentPlayers[i] != nil && 0 <= currentPlayers[i].Seat && currentPlayers[i].Seat < tableMaxSeatCount)
+//@   requires forall(i, 0, 10, forall(j, 0, 10, i < j && j < len(currentPlayers) ==> currentPlayers[i] != currentPlayers[j] && currentPlayers[i].PlayerID != currentPlayers[j].PlayerID && currentPlayers[i].Seat != currentPlayers[j].Seat))
+//@   requires HandShape(te) && sameslice(currentPlayers, PS(te))
+//@   modifies nothing
+//@   loop 0 unroll 10
+//@   loop 1 unroll 10
+//@   loop 2 unroll 10
+//@   loop 3 unroll 10
+//@   loop 4 unroll 10
+//@   ensures stayers-kept: 0 <= len(newPS) && len(newPS) <= len(currentPlayers) && fresh(newPS)
+//@             && forall(i, 0, 10, i < len(currentPlayers) && !leavingID(leavePlayerIDs, currentPlayers[i].PlayerID) ==> exists(j, 0, 10, j < len(newPS) && newPS[j] == currentPlayers[i]))
+//@   ensures leavers-dropped: forall(j, 0, 10, j < len(newPS) ==> exists(i, 0, 10, i < len(currentPlayers) && newPS[j] == currentPlayers[i] && !leavingID(leavePlayerIDs, currentPlayers[i].PlayerID)))
+//@   ensures no-duplicates: forall(a, 0, 10, forall(b, 0, 10, a < b && b < len(newPS) ==> newPS[a] != newPS[b]))
+//@   ensures order-kept: len(newPS) == cnt(k, 0, 10, k < len(currentPlayers) && !leavingID(leavePlayerIDs, currentPlayers[k].PlayerID))
+//@             && forall(i, 0, 10, i < len(currentPlayers) && !leavingID(leavePlayerIDs, currentPlayers[i].PlayerID)
+//@                   ==> newPS[cnt(k, 0, i, !leavingID(leavePlayerIDs, currentPlayers[k].PlayerID))] == currentPlayers[i])
+//@   ensures seat-map-rebuilt: len(newSeatMap) == tableMaxSeatCount && fresh(newSeatMap)
+//@             && forall(j, 0, 10, j < len(newPS) ==> newSeatMap[newPS[j].Seat] == j)
+//@             && forall(s, 0, 10, s < tableMaxSeatCount ==> newSeatMap[s] == -1 || (0 <= newSeatMap[s] && newSeatMap[s] < len(newPS) && newPS[newSeatMap[s]].Seat == s))
+
+//@ spec stays(te, ids, p) = !leavingID(ids, p.PlayerID)
+//@ spec inPS(te, p) = exists(j, 0, 10, j < len(PS(te)) && PS(te)[j] == p)
+
+//@ func (*tableEngine).batchRemovePlayers
+//@   property C01 C03
+//@   returns err
+//@   config M 2..10 : te.table.Meta.TableMaxSeatCount = M, te.sm.MaxSeat = M, len(te.sm.SeatData) = M
+//@   requires TableWF(te) && Coupled(te) && HandShape(te) && 0 <= len(playerIDs) && len(playerIDs) <= MaxSeats(te)
+//@   modifies St(te).PlayerStates, St(te).SeatMap, St(te).GamePlayerIndexes, te.sm.SeatData[all]
+//@   ensures inv: TableWF(te) && Coupled(te)
+//@   ensures unknown-refused: err != nil <==> exists(i, 0, 10, i < len(playerIDs) && !old(knows(te, playerIDs[i])))
+//@   ensures refused-changes-nothing: err != nil ==> playersSame(te) && seatsSame(te) && smSame(te)
+//@   ensures stayers-kept-with-their-chips: err == nil ==> forall(i, 0, 10, i < old(len(PS(te))) && !leavingID(playerIDs, old(PS(te)[i].PlayerID)) ==> inPS(te, old(PS(te)[i])))
+//@   ensures leavers-gone: err == nil ==> forall(j, 0, 10, j < len(PS(te)) ==> !leavingID(playerIDs, PS(te)[j].PlayerID)
+//@             && exists(i, 0, 10, i < old(len(PS(te))) && PS(te)[j] == old(PS(te)[i])))
+
+//@ func (*tableEngine).emitTableStateEvent
+//@   inline
+
+//@ func (*tableEngine).PlayersLeave
+//@   property C01 C03 C16
+//@   returns err
+//@   config M 2..10 : te.table.Meta.TableMaxSeatCount = M, te.sm.MaxSeat = M, len(te.sm.SeatData) = M
+//@   requires TableWF(te) && Coupled(te) && HandShape(te) && 0 <= len(playerIDs) && len(playerIDs) <= MaxSeats(te) && !held(te.lock)
+//@   modifies St(te).PlayerStates, St(te).SeatMap, St(te).GamePlayerIndexes, te.sm.SeatData[all], te.table.UpdateAt, te.table.UpdateSerial, log
+//@   ensures inv: TableWF(te) && Coupled(te)
+//@   ensures unknown-refused: err != nil <==> exists(i, 0, 10, i < len(playerIDs) && !old(knows(te, playerIDs[i])))
+//@   ensures refused-changes-nothing: err != nil ==> playersSame(te) && seatsSame(te) && smSame(te)
+//@   ensures stayers-kept-with-their-chips: err == nil ==> forall(i, 0, 10, i < old(len(PS(te))) && !leavingID(playerIDs, old(PS(te)[i].PlayerID)) ==> inPS(te, old(PS(te)[i])))
+//@   ensures leavers-gone: err == nil ==> forall(j, 0, 10, j < len(PS(te)) ==> !leavingID(playerIDs, PS(te)[j].PlayerID))
